@@ -455,6 +455,7 @@ MUTATIONS = {
     "cl_empty": _cl_variant(lambda n, r: ""),
     "cl_nonascii_digit": _cl_variant(lambda n, r: r.choice(["\xd9\xa5", "\xef\xbc\x95", "\xb2"])),
     "cl_underscore": _cl_variant(lambda n, r: "1_0"),
+    "cl_many_digits": _cl_variant(lambda n, r: r.choice(["0" * 4400 + n, "9" * 4301, "1" + "0" * 5000])),
     "te_twice": _te_variant("chunked, chunked"),
     "te_xchunked": _te_variant("xchunked"),
     "te_chunked_identity": _te_variant("chunked, identity"),
